@@ -7,6 +7,8 @@ import semprops
 import vlib
 
 KNOWN_POS = {"wild_deref": "C11-wild-deref"}
+# (target, form) -> known finding: the cell is rejected in some positions for the recorded reason
+KNOWN_FORMS = {("str_ref", "str_eq"): "C11-eq-on-a-string-slice"}
 
 WITNESS_CLOSURE = {
     "id": "C11-closure-by-value",
@@ -122,6 +124,9 @@ def run(res):
             if pos in KNOWN_POS and KNOWN_POS[pos] in kf and oc.startswith("reject"):
                 known_hits[KNOWN_POS[pos]] = known_hits.get(KNOWN_POS[pos], 0) + 1
                 continue
+            if (key[0], key[1]) in KNOWN_FORMS and KNOWN_FORMS[(key[0], key[1])] in kf and oc.startswith("reject:E0277"):
+                known_hits[KNOWN_FORMS[(key[0], key[1])]] = known_hits.get(KNOWN_FORMS[(key[0], key[1])], 0) + 1
+                continue
             failing += 1
             if failing <= 3:
                 res.violation("failing-input",
@@ -130,6 +135,10 @@ def run(res):
                               {"target": key[0], "form": key[1], "pattern": key[2], "position": pos,
                                "reference_outcome": ref, "outcome": oc, "rustc": err,
                                "program": matrix.program(key[0], pos, key[2])})
+    if known_hits.get("C11-eq-on-a-string-slice"):
+        res.known.append("`== \"literal\"` on a value of type &str is accepted where the value is a destructured binding (struct field, tuple / variant / slice "
+                         "element) and rejected (E0277 `str: PartialEq<&str>`) as the root pattern and after a field operation: the generated method call "
+                         "`(value).eq(&(\"literal\"))` finds `str`'s impl first when the receiver is `&str` itself (%d matrix cells)" % known_hits["C11-eq-on-a-string-slice"])
     if known_hits.get("C11-wild-deref"):
         res.known.append("`*field` inside a wildcard struct dereferences one level more than in a named struct: `_ { *bx: 7, .. }` on "
                          "Box<i32> is rejected (E0614) where `W { *bx: 7, .. }` is accepted (%d matrix cells)" % known_hits["C11-wild-deref"])
